@@ -7,8 +7,10 @@ generated scripts -> diff -> run the property oracle over the IMPLEMENTATION's t
 import os, sys, json, time, subprocess, random, hashlib, shutil, re, fcntl, tempfile
 import concurrent.futures as cf
 
-V = '/verif'
+V = os.path.dirname(os.path.dirname(os.path.abspath(__file__)))
 B = os.environ.get('VERIF_BUILD', V + '/build')
+os.environ['VERIF_BUILD'] = B
+os.environ['VERIF_HOME'] = V
 REPO = os.environ.get('VERIF_REPO', '/repo')
 VDRIVE = B + '/harness/vdrive'
 VMODEL = B + '/ocaml/vmodel'
@@ -86,8 +88,7 @@ def build_all(log):
 
 
 def coq_make():
-    if not os.path.exists(COQ + '/Makefile') or os.path.getmtime(COQ + '/Makefile') < os.path.getmtime(COQ + '/_CoqProject'):
-        sh('coq_makefile -f _CoqProject -o Makefile', cwd=COQ)
+    sh(['bash', V + '/tools/gen_coqproject.sh'])
     rc, o, e = sh('timeout 3000 make -k -j%d 2>&1' % NPROC, cwd=COQ, timeout=3100)
     return rc == 0, o + e
 
